@@ -21,4 +21,20 @@ with open("/verif/seeded/README.md", "w") as f:
             "| id | property | change | needs | detection |\n|---|---|---|---|---|\n")
     for r in rows:
         f.write("| " + " | ".join(r) + " |\n")
+# compact summary (pasted into DESIGN.md section 0.6)
+with open("/verif/seeded/SUMMARY.md", "w") as f:
+    f.write("| seeded change | breaks | files | last verdict of the quick check | how |\n|---|---|---|---|---|\n")
+    for d in sorted(glob.glob("/verif/seeded/*/")):
+        mp = os.path.join(d, "meta.json")
+        if not os.path.exists(mp):
+            continue
+        m = json.load(open(mp))
+        sid = os.path.basename(d.rstrip("/"))
+        det = m.get("detection", [])
+        last = det[-1] if det else {"verdict": "not run", "note": ""}
+        first_missed = any(x["verdict"] == "missed" for x in det[:-1]) or "missed at first" in last["note"]
+        verdict = last["verdict"] + (" (after strengthening)" if last["verdict"] == "caught" and first_missed else "")
+        files = ", ".join(os.path.basename(x) if x.count("/") < 2 else "/".join(x.split("/")[1:]) for x in (m.get("files") or []))[:80]
+        brk = (m.get("breaks") or "").replace("\n", " ").replace("|", "/")
+        f.write(f"| {sid} | {brk[:150]}… | {files} | **{verdict}** | {last['note'][:220].replace('|','/')} |\n")
 print(len(rows), "rows")
